@@ -295,7 +295,7 @@ def shards(tier: str) -> List[Dict[str, Any]]:
             n = 3 if tier == "quick" else 4
             out.append({"name": f"csharp:{shape},len={n},markup-alphabet", "params": {"wrapper": "csharp:" + shape, "len": n,
                                                                                      "alphabet": MARKUP_ALPHABET},
-                        "budget_s": 300 if tier == "quick" else 2400, "per_path_timeout": 60})
+                        "budget_s": 450 if tier == "quick" else 2400, "per_path_timeout": 60})
     out.sort(key=lambda shard: -shard["budget_s"] if not shard.get("exploratory") else 0)
     return out
 
